@@ -63,6 +63,10 @@ func opMarshal(c Obj) J {
 	}
 	sj := conv((*ast.Policy)(subject.AST()))
 	out["subject"] = sj
+	if via == "ast" || via == "" {
+		// the same tree built through the public builder API (package ast) must be the tree itself
+		out["builder"] = builderVerdict(must(cwf.JToPolicy(c["policy"])))
+	}
 	text := subject.MarshalCedar()
 	out["text"] = cwf.StrToJ(string(text))
 	out["utf8"] = utf8.Valid(text)
